@@ -98,7 +98,7 @@ func (b *Built) build(e *Expr, h *Hooks) parsley.Parser {
 		case OpSuppress:
 			p = combinator.SuppressError(ks[0])
 		case OpOpt:
-			p = combinator.Optional(ks[0])
+			p = fn(combinator.Optional(ks[0]))
 		case OpMany:
 			p = seq(combinator.Many(ks[0]))
 		case OpMany1:
